@@ -291,3 +291,76 @@ func RunBatch(harnesses map[string]func()) {
 		RunNative(c.ID, h)
 	}
 }
+
+// Literal styles.
+const (
+	StyleDecimal    = 0
+	StyleHex        = 1 // 0x...
+	StyleOctal      = 2 // 0o...
+	StyleBinary     = 3 // 0b...
+	StyleUnderscore = 4 // decimal with _ separators (only legal with base 0)
+	NumStyles       = 5
+)
+
+func fmtMag(mag uint64, neg bool, style int) string {
+	var s string
+	switch style {
+	case StyleHex:
+		s = "0x" + fmtBase(mag, 16)
+	case StyleOctal:
+		s = "0o" + fmtBase(mag, 8)
+	case StyleBinary:
+		s = "0b" + fmtBase(mag, 2)
+	case StyleUnderscore:
+		d := fmtBase(mag, 10)
+		out := ""
+		for i := range d {
+			if i > 0 && (len(d)-i)%3 == 0 {
+				out += "_"
+			}
+			out += string(d[i])
+		}
+		s = out
+	default:
+		s = fmtBase(mag, 10)
+	}
+	if neg {
+		s = "-" + s
+	}
+	return s
+}
+
+func fmtBase(v uint64, base uint64) string {
+	if v == 0 {
+		return "0"
+	}
+	const digits = "0123456789abcdef"
+	var b [64]byte
+	i := len(b)
+	for v > 0 {
+		i--
+		b[i] = digits[v%base]
+		v /= base
+	}
+	return string(b[i:])
+}
+
+// Literal returns the text of the Go integer literal for v in the given style. Under symgo the
+// result is an opaque string segment whose value is the (symbolic) v.
+func Literal(v int64, style int) string {
+	if v < 0 {
+		return fmtMag(uint64(-v), true, style) // -MinInt64 wraps to 2^63, which is its magnitude
+	}
+	return fmtMag(uint64(v), false, style)
+}
+
+// LiteralU is Literal for unsigned values.
+func LiteralU(v uint64, style int) string { return fmtMag(v, false, style) }
+
+// LiteralWide returns a decimal literal of magnitude 2^64 (outside every 64-bit type).
+func LiteralWide(neg bool) string {
+	if neg {
+		return "-18446744073709551616"
+	}
+	return "18446744073709551616"
+}
